@@ -303,13 +303,24 @@ def initialBlobs (fx : Fixed) : List Bytes :=
   [[1, 0, 4, 4], fx.nameIndex, [], [], [0, 0], fx.encoding.getD [], fx.charsets, fx.fdSelect.getD [],
     fx.charStrings, []] ++ fx.privBase.map (fun _ => []) ++ [[0, 0]]
 
+/-- offsets at which every offset operand (and every Subrs operand, a difference of two of them)
+takes its longest form (five bytes) -/
+def bigOffs (n : Nat) : List Int := (List.range (n + 1)).map fun (i : Nat) => ((i : Int) + 1) * 65536
+
+/-- Fuel for the loop `for { …; if done { break } }`, which has no bound in the Go code: the
+position of the last section when every offset operand has its longest form, plus one.  Every
+pass but the last moves the last section forward by at least one byte and it cannot pass that
+position (`C13_write_converges`), so the fuel is never used up. -/
+def writeFuel (std : List String) (isCID : Bool) (fx : Fixed) (sc : Secs) : Nat :=
+  ((mkBlobs std isCID fx sc (bigOffs sc.num)).take (sc.num - 1)).flatten.length + 1
+
 /-- `(*Font).Write` after `encodeCharStrings`: the file, and the number of loop passes -/
 def writeFont (std : List String) (f : FontIn) : Outcome (Bytes × Nat) :=
   match prepare std f with
   | .err x => .err x
   | .panic s => .panic s
   | .ok (fx, sc) =>
-    match writeLoop (mkBlobs std f.ros.isSome fx sc) sc.num 64 (cumsum (initialBlobs fx)) 0 with
+    match writeLoop (mkBlobs std f.ros.isSome fx sc) sc.num (writeFuel std f.ros.isSome fx sc) (cumsum (initialBlobs fx)) 0 with
     | some (blobs, offs, k) =>
       if mkBlobsFits std f.ros.isSome fx sc offs then .ok (blobs.flatten, k)
       else .panic "cff: too much data for INDEX"
